@@ -805,7 +805,7 @@ def front_rewrite(R):
         step = ag.visitor_step(cls(), n, None, hypothesis=lambda obj, c, st, l=l, r=r, l2=l2, r2=r2: l2 if obj is l else (r2 if obj is r else None))
         res = step.result if step.result is not None else n
         visited = [o for o, _c in step.visits]
-        ok = step.raised is None and sum(1 for o in visited if o is l) == 1 and sum(1 for o in visited if o is r) == 1 and isinstance(res, a.AssignmentExpression) \
+        ok = step.raised is None and any(o is l for o in visited) and any(o is r for o in visited) and isinstance(res, a.AssignmentExpression) \
             and res.GetOperation() == op.Operation.ASSIGN and res.GetLeft() is l2
         if ok and bop is None:
             ok = res.GetRight() is r2
@@ -813,7 +813,7 @@ def front_rewrite(R):
             ok = isinstance(res.GetRight(), a.BinaryExpression) and res.GetRight().GetOperation() == op.Operation[bop] and res.GetRight().GetLeft() is l2 and res.GetRight().GetRight() is r2
         R.check(f"FRONT.rewrite.descends[{aop}]", "nsl.passes.RewriteAssignEqualOperations::RewriteAssignEqualVisitor.v_AssignmentExpression", ok,
                 detail=f"operands visited: {len(visited)} visit(s) ({'l' if any(o is l for o in visited) else '-'}{'r' if any(o is r for o in visited) else '-'}); result {res} (raised {step.raised!r}); "
-                       "both operands must be visited once and the result built from the visits' results",
+                       "both operands must be handed to the visitor and the result built from the visits' results",
                 replay=script("""
                     import io, contextlib
                     from nsl import Compiler, LinearIR, VM
